@@ -350,4 +350,27 @@ def inputs_for(g: Grammar, rule: str, rnd: random.Random, n_sent=10, n_total=40,
     # random strings
     for _ in range(max(2, n_total // 10)):
         add("".join(rnd.choice(alpha) for _ in range(rnd.randint(1, 6))))
-    return out[:n_total + 8]
+    # gap characters of character classes: a code point that lies between two literal parts of a @char rule which are one
+    # or two code points apart ('a'..'c' | 'e'..'g': 'd') put where a member of that class stood in a sentence.  Own random
+    # stream and appended behind the cut, so every other input stays what it was.
+    extra = []
+    gr = random.Random("class-gaps/%r/%d" % (rule, len(sents[0]) if sents else 0))
+    for r in g.rules:
+        if r.kind != "char":
+            continue
+        spans = sorted((ord(p[1]), ord(p[-1])) for p in r.parts if p[0] in ("lit", "rng") and ord(p[1]) <= ord(p[-1]))
+        gaps = []
+        for (l1, h1), (l2, h2) in zip(spans, spans[1:]):
+            if 2 <= l2 - h1 <= 3:
+                gaps += [c for c in range(h1 + 1, l2) if not any(a <= c <= b for a, b in spans) and not 0xD800 <= c <= 0xDFFF]
+        for c in gaps[:4]:
+            for snt in sents[:6]:
+                idx = [k for k, ch in enumerate(snt) if any(a <= ord(ch) <= b for a, b in spans)]
+                if not idx:
+                    continue
+                k = gr.choice(idx)
+                x = trunc(snt[:k] + chr(c) + snt[k + 1:], maxbytes)
+                if x not in seen and len(extra) < 16:
+                    seen.add(x)
+                    extra.append(x)
+    return out[:n_total + 8] + extra
